@@ -67,7 +67,7 @@ package cluster
 // a Canceled response (fatal stream error while the subscriber was busy for
 // more than 250 ms), syncer.run receives zero values for ever and pulls
 // back-to-back. The harness detects >150 Range RPCs per virtual second, logs it
-// and from then on makes every Range cost 50 ms of virtual time, so that the
+// and from then on makes every Range cost 50-250 ms of virtual time, so that the
 // run goes on (snapshots and convergence are still judged).
 //
 // Determinism (added with the extensions, found by `vcheck determinism` on other
@@ -145,6 +145,7 @@ import (
 	"google.golang.org/grpc/backoff"
 	"google.golang.org/grpc/codes"
 	"google.golang.org/grpc/keepalive"
+	"google.golang.org/grpc/stats"
 	"google.golang.org/grpc/status"
 
 	pb "go.etcd.io/etcd/api/v3/etcdserverpb"
@@ -601,6 +602,10 @@ type c19Env struct {
 	busy           bool
 	lastHalt       time.Duration
 	awaitFirstPull bool
+	deadSince      time.Duration
+	streak         int
+	streakRev      int64
+	streakAt       time.Duration
 }
 
 // sleep lets d pass plus a few nanoseconds that are different for every call:
@@ -626,6 +631,10 @@ const c19Rounds = 30
 
 // c19BusyRanges: see the busy-loop detector in unaryHook.
 const c19BusyRanges = 150
+
+// c19BusyStreak: more than any burst of watch responses a scenario can produce
+// (3 writers x 18 operations) for one store revision.
+const c19BusyStreak = 120
 
 // c19DbgConn / c19DbgLis log every Write (development aid, C19_DEBUG_IO=1).
 type c19DbgConn struct {
@@ -730,24 +739,46 @@ func (e *c19Env) unaryHook(ctx context.Context, ph zzsimetcd.Phase, method strin
 			for len(e.rangeAt) > 0 && now-e.rangeAt[0] > time.Second {
 				e.rangeAt = e.rangeAt[1:]
 			}
-			if len(e.rangeAt) > c19BusyRanges && !e.busy {
+			// second criterion (a busy loop slowed down by network delay stays
+			// below 150 per second): c19BusyStreak Range RPCs in a row, each less than 150 ms
+			// after its predecessor and none refused, while the store revision did
+			// not change. Legitimate pulls without a store change are the ticker's
+			// (at least 200 ms apart), retries of refused ones, and one pull per
+			// watch response of a burst that is already complete in the store.
+			if rev := e.store.Rev(); rev == e.streakRev && now-e.streakAt < 150*time.Millisecond && e.rangeErrLeft == 0 {
+				e.streak++
+			} else {
+				e.streak, e.streakRev = 0, rev
+			}
+			e.streakAt = now
+			if (len(e.rangeAt) > c19BusyRanges || e.streak >= c19BusyStreak) && !e.busy {
 				// OBSERVATION, not a violation of the C19 statement (snapshots stay
 				// correct and convergence holds): syncer.run pulls back-to-back. It
 				// happens when clientv3 closed the watch channel without a Canceled
 				// response (fatal stream error while the subscriber was busy for more
 				// than 250 ms): `resp := <-watchChan` then yields zero values for ever.
-				// From here on every Range costs 50 ms of virtual time, so that the run
+				// From here on every Range costs 50-250 ms of virtual time, so that the run
 				// can go on (and all rules are still judged) instead of spinning in
 				// zero time.
 				e.busy = true
 				r.Probe("c19.busy_pull_loop_observed")
-				r.Eventf("OBSERVATION busy pull loop: %d Range RPCs within one virtual second at %v (%d watch streams open, last fatal watch stream error at %v); Range is throttled from now on",
-					len(e.rangeAt), now, e.srv.OpenWatchStreams(), e.lastHalt)
+				r.Eventf("OBSERVATION busy pull loop: %d Range RPCs within one virtual second, %d in a row without a store change, at %v (%d watch streams open, last fatal watch stream error at %v); Range is throttled from now on",
+					len(e.rangeAt), e.streak, now, e.srv.OpenWatchStreams(), e.lastHalt)
 			}
 			if e.busy {
 				// let virtual time pass, otherwise the spinning caller keeps the
 				// clock (and the end of the run) from advancing
-				time.Sleep(50 * time.Millisecond)
+				// (a quarter of the request time-out, 50..250 ms: the pulls still
+				// succeed, but a run with a 10 s pull interval no longer spends 60000
+				// steps in its quiet periods)
+				d := time.Duration(e.sc.ReqTimeoutMs) * time.Millisecond / 4
+				if d < 50*time.Millisecond {
+					d = 50 * time.Millisecond
+				}
+				if d > 250*time.Millisecond {
+					d = 250 * time.Millisecond
+				}
+				time.Sleep(d)
 				r.Yield("etcd.wake")
 			}
 			if e.rangeSlowLeft > 0 {
@@ -961,6 +992,31 @@ func c19FPOf(v interface{}) string {
 	return "?"
 }
 
+// c19YieldOnTransparentRetry yields the processor at the start of every
+// TRANSPARENT retry attempt of an RPC. grpc-go 1.46 retries an RPC whose stream
+// could not be created because the transport is closing (ErrConnClosing)
+// immediately and without limit, and keeps picking the same transport until
+// its reader goroutine has noticed the dead connection. Between the exit of
+// the transport's writer (write error, e.g. a 70 KB request to a stopped
+// server) and the next run of the reader that loop never blocks; with real
+// threads the reader runs in parallel, under the bubble's single cooperative
+// processor the loop span until sysmon preempted it after 5 s of REAL time
+// (3 of 500 runs took 5.4 s each). Normal attempts are not touched.
+type c19YieldOnTransparentRetry struct{}
+
+func (c19YieldOnTransparentRetry) TagRPC(ctx context.Context, _ *stats.RPCTagInfo) context.Context {
+	return ctx
+}
+func (c19YieldOnTransparentRetry) HandleRPC(_ context.Context, s stats.RPCStats) {
+	if b, ok := s.(*stats.Begin); ok && b.IsTransparentRetryAttempt {
+		runtime.Gosched()
+	}
+}
+func (c19YieldOnTransparentRetry) TagConn(ctx context.Context, _ *stats.ConnTagInfo) context.Context {
+	return ctx
+}
+func (c19YieldOnTransparentRetry) HandleConn(context.Context, stats.ConnStats) {}
+
 type c19NullSink struct{}
 
 func (c19NullSink) Write(b []byte) (int, error) { return len(b), nil }
@@ -1010,11 +1066,15 @@ func c19SizeOf(v interface{}) int {
 
 func c19Exec(r *sim.Run, sci interface{}) {
 	sc := sci.(*c19Scenario)
-	if len(sc.Syncers) == 0 || sc.ReqTimeoutMs <= 0 {
+	// validity guard: the minimiser also shrinks numbers; a request time-out or
+	// pull interval below the generator's range (330 ms / 200 ms) makes every
+	// pull fail or the run spin, and "no convergence" would then be reproduced
+	// for a reason that has nothing to do with the original finding
+	if len(sc.Syncers) == 0 || sc.ReqTimeoutMs < 300 {
 		return
 	}
 	for _, s := range sc.Syncers {
-		if s.PullMs <= 0 || s.Target == "" {
+		if s.PullMs < 200 || s.Target == "" {
 			return
 		}
 	}
@@ -1056,6 +1116,12 @@ func c19Exec(r *sim.Run, sci interface{}) {
 			// timer (also 1 minute) or a caller its request time-out (README rule:
 			// no two timers for the same instant)
 			env.sleep(0)
+			if env.deadSince > 0 && r.Now()-env.deadSince > time.Minute {
+				// nothing closed the black-holed connection from outside: this dial
+				// follows the client's own keep-alive giving up on it
+				env.deadSince = 0
+				r.Probe("client_redialled_after_keep_alive_gave_up_on_silent_connection")
+			}
 		}
 		c, err := n.Dial(ctx, "tcp", addr)
 		if err == nil && c19DebugIO {
@@ -1065,7 +1131,8 @@ func c19Exec(r *sim.Run, sci interface{}) {
 	}),
 		// gRPC's default reconnect back-off (1s * 1.6^n, max 120s) without its
 		// jitter, which is drawn from a generator seeded with the wall clock
-		grpc.WithConnectParams(grpc.ConnectParams{Backoff: backoff.Config{BaseDelay: time.Second, Multiplier: 1.6, Jitter: 0, MaxDelay: 120 * time.Second}, MinConnectTimeout: 20 * time.Second})}
+		grpc.WithConnectParams(grpc.ConnectParams{Backoff: backoff.Config{BaseDelay: time.Second, Multiplier: 1.6, Jitter: 0, MaxDelay: 120 * time.Second}, MinConnectTimeout: 20 * time.Second}),
+		grpc.WithStatsHandler(c19YieldOnTransparentRetry{})}
 	reqTimeout := time.Duration(sc.ReqTimeoutMs) * time.Millisecond
 	cl := &cluster{requestTimeout: reqTimeout, done: make(chan struct{})}
 	if sc.Client == "real" {
@@ -1539,6 +1606,7 @@ func c19Exec(r *sim.Run, sci interface{}) {
 						// is what ends a connection that stays silent: this phase's quiet
 						// periods are that much longer
 						phaseExtra = 125 * time.Second
+						env.deadSince = r.Now()
 						r.Probe("silent_outage_old_connection_stays_dead")
 					}
 					if dur > maxDown {
